@@ -168,7 +168,7 @@ func ownerStartedBefore(p *Prog, op *ChanOp) (bool, string) {
 				casGuard := false
 				inspectNoLit(e, func(m ast.Node) bool {
 					if call, ok := m.(*ast.CallExpr); ok {
-						if fn := callee(in, call); fn != nil && fn.Name() == "CompareAndSwap" {
+						if fn := callee(in, call); fn != nil && strings.HasPrefix(fn.Name(), "CompareAndSwap") {
 							casGuard = true
 						}
 					}
@@ -668,6 +668,10 @@ func ruleR0(c *Ctx, surfaceOnly bool) {
 				continue
 			}
 			if ok, how := bufferedSingleUse(p, ce, op); ok {
+				c.Ok(f, op.Node, desc, what, "K9 "+how, true)
+				continue
+			}
+			if ok, how := bufferedMapElementOnce(p, op); ok {
 				c.Ok(f, op.Node, desc, what, "K9 "+how, true)
 				continue
 			}
@@ -1478,7 +1482,7 @@ func underCASGuard(p *Prog, f *FuncInfo, n ast.Node) bool {
 			cas := false
 			inspectNoLit(ifs.Cond, func(m ast.Node) bool {
 				if call, ok := m.(*ast.CallExpr); ok {
-					if fn := callee(in, call); fn != nil && fn.Name() == "CompareAndSwap" {
+					if fn := callee(in, call); fn != nil && strings.HasPrefix(fn.Name(), "CompareAndSwap") {
 						cas = true
 					}
 				}
@@ -1811,4 +1815,87 @@ func callableThroughInterface(p *Prog, fn *types.Func) bool {
 		}
 	}
 	return false
+}
+
+// bufferedMapElementOnce: the send is on the value variable of a range over a local map of channels; every channel
+// stored into that map is made with capacity >= 1; the send is the only send on the variable in the loop body and not in
+// an inner loop; and the range statement runs at most once per map (it is guarded by a compare-and-swap).
+func bufferedMapElementOnce(p *Prog, op *ChanOp) (bool, string) {
+	f := op.Func
+	in := info(f)
+	id, ok := unparen(op.Chan).(*ast.Ident)
+	if !ok {
+		return false, ""
+	}
+	vo := objOf(in, id)
+	var rs *ast.RangeStmt
+	for cur := p.Parent(op.Node); cur != nil; cur = p.Parent(cur) {
+		if r, ok := cur.(*ast.RangeStmt); ok {
+			if vid, ok := r.Value.(*ast.Ident); ok && objOf(in, vid) == vo {
+				rs = r
+			}
+			break
+		}
+		if _, ok := cur.(*ast.ForStmt); ok {
+			break
+		}
+		if _, ok := cur.(*ast.FuncLit); ok {
+			break
+		}
+	}
+	if rs == nil {
+		return false, ""
+	}
+	mid, ok := unparen(rs.X).(*ast.Ident)
+	if !ok {
+		return false, ""
+	}
+	mo := objOf(in, mid)
+	if _, isMap := in.TypeOf(mid).Underlying().(*types.Map); !isMap || mo == nil || !isLocalVar(f.Root(), mo) {
+		return false, ""
+	}
+	// every store into the map is make(chan T, n>=1)
+	stores, okAll := 0, true
+	rin := info(f.Root())
+	ast.Inspect(f.Root().Body, func(m ast.Node) bool {
+		as, ok := m.(*ast.AssignStmt)
+		if !ok || len(as.Lhs) != len(as.Rhs) {
+			return true
+		}
+		for i, l := range as.Lhs {
+			ix, ok := unparen(l).(*ast.IndexExpr)
+			if !ok {
+				continue
+			}
+			if bid, ok := unparen(ix.X).(*ast.Ident); !ok || objOf(rin, bid) != mo {
+				continue
+			}
+			stores++
+			cl, ok := unparen(as.Rhs[i]).(*ast.CallExpr)
+			if !ok {
+				okAll = false
+				continue
+			}
+			if isMk, capc := makeChanCap(rin, cl); !isMk || capc != ">=1" {
+				okAll = false
+			}
+		}
+		return true
+	})
+	if stores == 0 || !okAll {
+		return false, ""
+	}
+	sends := 0
+	inspectNoLit(rs.Body, func(m ast.Node) bool {
+		if s, ok := m.(*ast.SendStmt); ok {
+			if sid, ok := unparen(s.Chan).(*ast.Ident); ok && objOf(in, sid) == vo {
+				sends++
+			}
+		}
+		return true
+	})
+	if sends != 1 || !underCASGuard(p, f, rs) {
+		return false, ""
+	}
+	return true, fmt.Sprintf("element of the local map %s: every channel stored in it is made with capacity >= 1, the range that sends runs at most once per map (compare-and-swap guard) and sends once per element", mid.Name)
 }
